@@ -798,7 +798,10 @@ impl StreamsState {
                 let Some(stream) = self.send.get_mut(&id).and_then(|s| s.as_mut()) else {
                     continue;
                 };
-                if stream.pending.is_fully_acked() && !stream.fin_pending {
+                // The FIN of a finished stream may have been sent in 0-RTT as well; an empty stream has
+                // no data that would carry it again
+                let finished = matches!(stream.state, SendState::DataSent { finish_acked: false });
+                if stream.pending.is_fully_acked() && !stream.fin_pending && !finished {
                     // Stream data can't be acked in 0-RTT, so we must not have sent anything on
                     // this stream
                     continue;
@@ -806,6 +809,7 @@ impl StreamsState {
                 if !stream.is_pending() {
                     self.pending.push_pending(id, stream.priority);
                 }
+                stream.fin_pending |= finished;
                 stream.pending.retransmit_all_for_0rtt();
             }
         }
